@@ -25,6 +25,9 @@ type E2Spec struct {
 	Commits    string `json:"commits"`     // subset of "ABG" + "O" (valid for X's own proposal)
 	PreCommits string `json:"precommits"`  // same for pre-commits
 	CVs        int    `json:"cvs"`         // 0 none, 1 newView=v+1, 2 also v+2
+	CVViews    int    `json:"cv_views"`    // change views only for views < CVViews (0 = all)
+	RespPeers  int    `json:"resp_peers"`  // responses/commits only from the first RespPeers peers (0 = all)
+	PoolFirst  bool   `json:"pool_first"`  // a requested transaction may enter the pool before OnTransaction is called
 	RecReq     bool   `json:"rec_req"`
 	Bundles    bool   `json:"bundles"`
 	NextHeight bool   `json:"next_height"` // payloads of height h+1 (cache)
@@ -35,6 +38,7 @@ type E2Spec struct {
 	NoTimeout  bool   `json:"no_timeout"` // timer events excluded
 	TxB        []H    `json:"tx_b"`       // transactions of proposal B (default [102 103])
 	TxA        []H    `json:"tx_a"`       // transactions of proposal A (default [101])
+	TxA1       []H    `json:"tx_a1"`      // transactions of proposal A in odd views (default [103])
 	MaxDepth   int    `json:"max_depth"`
 	StateCap   int    `json:"state_cap"`
 	Heights    int    `json:"heights"`
@@ -61,6 +65,8 @@ func buildE2(w *World) *e2env {
 	txFor := func(kind byte, v byte) []H {
 		// proposals of different views carry different transactions (A: 101 / 103, B: 102+103 / 101+102)
 		switch {
+		case kind == 'A' && v%2 == 1 && sp.TxA1 != nil:
+			return sp.TxA1
 		case kind == 'A' && sp.TxA != nil:
 			return sp.TxA
 		case kind == 'B' && sp.TxB != nil:
@@ -149,9 +155,10 @@ func buildE2(w *World) *e2env {
 					return blockHash(h, xn.tip, r.ts, r.nonce, r.txs), true
 				}
 			}
-			for _, i := range peers {
+			for pi, i := range peers {
 				i := i
-				if i != prim {
+				limited := sp.RespPeers > 0 && pi >= sp.RespPeers
+				if i != prim && !limited {
 					for _, k := range sp.Responses {
 						switch k {
 						case 'A', 'B':
@@ -213,11 +220,13 @@ func buildE2(w *World) *e2env {
 						}
 					}
 				}
-				sigs(sp.Commits, 'B', dbft.CommitType, func(s []byte) any { return &commitBody{s} }, "commit")
-				if amev || sp.PreCommits != "" {
+				if !limited {
+					sigs(sp.Commits, 'B', dbft.CommitType, func(s []byte) any { return &commitBody{s} }, "commit")
+				}
+				if (amev || sp.PreCommits != "") && !limited {
 					sigs(sp.PreCommits, 'P', dbft.PreCommitType, func(s []byte) any { return &preCommitBody{s} }, "precommit")
 				}
-				if sp.CVs >= 1 {
+				if sp.CVs >= 1 && (sp.CVViews == 0 || int(v) < sp.CVViews) {
 					fixed(fmt.Sprintf("h%d v%d change view to %d from %d", h, v, v+1, i), mk(dbft.ChangeViewType, i, &changeView{newView: v + 1, reason: dbft.CVTimeout, ts: 1}))
 				}
 				if sp.CVs >= 2 {
@@ -317,6 +326,10 @@ func (w *World) e2Enabled() []Event {
 		slices.Sort(hs)
 		for _, h := range hs {
 			evs = append(evs, Event{K: "tx", N: x.id, P: h})
+			if sp.PoolFirst && !x.known[h] {
+				// the transaction reaches the application's pool (GetTx serves it) before the notification is delivered
+				evs = append(evs, Event{K: "txpool", N: x.id, P: h})
+			}
 		}
 	}
 	if !sp.NoTimeout && x.wantsTimer() {
